@@ -751,6 +751,22 @@ func ruleC12Docs(p *Prog, r *Result) {
 		}
 		return true, ""
 	})
+	pm.allIfAny("every named count is looked at: the loop over the names is left early only with an error", selectPaths(pm.paths, func(pa *Path) bool {
+		if pa.End != "return" {
+			return false
+		}
+		for _, g := range pa.Guards {
+			if g.Kind == "itermore" && !g.Neg && g.A != nil && strings.Contains(g.A.String(), "slices.Sorted") && strings.Contains(g.A.String(), "param:rs") {
+				return true
+			}
+		}
+		return false
+	}), "no break / early success inside the loop over the names", func(pa *Path) (bool, string) {
+		if isFailure(pa) {
+			return true, ""
+		}
+		return false, "the expansion stops before the last name has been looked at: a later count that is not an integer is no longer an error, and its variable is never bound"
+	})
 	pm.some("a named count that is not an int is an error", pm.paths, "ErrInvalidRepeat", "a non-integer named count is accepted", func(pa *Path) bool {
 		return isFailure(pa) && wraps(lastResult(pa), "ErrInvalidRepeat") && guardPol(pa, "kind", mElemOf(rsP), "int") == -1
 	})
